@@ -641,6 +641,15 @@ func runConc(c *Case, tr *Trace) {
 			want[key{vi, fi}] = d
 		}
 	}
+	// sequential reference for the generic (interface{}) unfolding of every shared value
+	wantGeneric := map[int]VD{}
+	for vi, v := range shared {
+		var generic interface{}
+		u, _ := gotype.NewUnfolder(&generic)
+		if err := gotype.Fold(v, u); err == nil {
+			wantGeneric[vi] = describe(reflect.ValueOf(&generic).Elem())
+		}
+	}
 	var mu sync.Mutex
 	mismatches, errs := 0, 0
 	regs := map[uintptr]int{} // registry identity -> number of instances using it at the same time
@@ -654,8 +663,26 @@ func runConc(c *Case, tr *Trace) {
 		go func(g int) {
 			defer wg.Done()
 			<-start
+			// besides new instances per pipeline, every goroutine owns one long-lived unfolder that it
+			// Resets and re-targets round after round (instances are reused in real programs)
+			own, _ := gotype.NewUnfolder(nil)
 			for r := 0; r < rounds; r++ {
 				vi, fi := (g+r)%len(shared), (g+2*r)%len(fmts)
+				{
+					var generic interface{}
+					own.Reset()
+					if err := own.SetTarget(&generic); err == nil {
+						err = gotype.Fold(shared[vi], own)
+						gd := describe(reflect.ValueOf(&generic).Elem())
+						mu.Lock()
+						if err != nil {
+							errs++
+						} else if w, ok := wantGeneric[vi]; ok && !equalVD(&gd, &w) {
+							mismatches++
+						}
+						mu.Unlock()
+					}
+				}
 				d, ri, ru, e := pipeline(shared[vi], fmts[fi])
 				mu.Lock()
 				if e != "" {
